@@ -128,6 +128,9 @@ def build_config(topo):
             cfg["request_ball_events"] = "ev_req_plunger"
         if name == "bd_stage":
             cfg["request_ball_events"] = "ev_req_stage"
+        if name == "bd_lock":
+            # a manual request that can never be served (nothing feeds a lock): it stays queued at the lock for good
+            cfg["request_ball_events"] = "ev_req_lock"
         if name == topo["source"]:
             cfg["eject_events"] = "ev_add_ball"      # manual request of one ball for the playfield
         if d.get("idle_missing_ball_timeout_s"):
